@@ -253,6 +253,16 @@ func genNpmManifest(rt *rapid.T, u []Pkg) Manifest {
 			key, spec = fmt.Sprintf("al-%d", k), "npm:"+p.Name+"@"+req
 		}
 		m.Npm = append(m.Npm, NpmEntry{Section: sec, Key: key, Spec: spec})
+		if key == p.Name && sec == "dependencies" && chance(rt, l+".twin", 1, 10) {
+			// the same registry package once more through an alias, same section (the reader
+			// replaces requirements by package, not by key, across sections: not generated)
+			spec2 := spec
+			if chance(rt, l+".twindiff", 1, 3) {
+				spec2 = genReq(rt, l+".t", "npm", p, lowVersion(rt, l+".t", p), true)
+			}
+			m.Npm = append(m.Npm, NpmEntry{Section: sec, Key: fmt.Sprintf("twin-%d", k), Spec: "npm:" + p.Name + "@" + spec2})
+			continue
+		}
 		if key == p.Name && chance(rt, l+".twice", 1, 10) {
 			other := "devDependencies"
 			if sec == other {
@@ -428,6 +438,32 @@ func installed(w *World) [][2]string {
 	return out
 }
 
+// addRange gives an affected entry a redundant range with its events in non-ascending order:
+// [fixed Y, introduced X] with X listed explicitly and Y the next version of the package.
+func addRange(w *World, a *Aff) {
+	p := w.pkg(a.Pkg)
+	if p == nil || len(a.Versions) == 0 {
+		return
+	}
+	sys := semverOf(w)
+	x := a.Versions[len(a.Versions)-1]
+	if _, err := sys.Parse(x); err != nil {
+		return
+	}
+	y := ""
+	for _, v := range p.Vers {
+		if _, err := sys.Parse(v.V); err != nil {
+			return
+		}
+		if sys.Compare(v.V, x) > 0 && (y == "" || sys.Compare(v.V, y) < 0) {
+			y = v.V
+		}
+	}
+	if y != "" {
+		a.Range = []string{y, x}
+	}
+}
+
 func genVulns(rt *rapid.T, w *World, conc bool) []VulnSpec {
 	nodes := installed(w)
 	nv := draw(rt, "nvulns", 2, 1, 2, 2, 3, 4)
@@ -473,6 +509,9 @@ func genVulns(rt *rapid.T, w *World, conc bool) []VulnSpec {
 		}
 		if len(a.Versions) == 0 {
 			a.Versions = []string{p.Vers[0].V}
+		}
+		if chance(rt, l+".range", 1, 3) {
+			addRange(w, &a)
 		}
 		return a
 	}
@@ -530,11 +569,38 @@ func genOpts(rt *rapid.T, w *World, maxUpgrades []int, plain, conc bool) Opts {
 		}
 	}
 	o.MaxUpgrades = draw(rt, "maxupgrades", maxUpgrades...)
+	o.ConfigFromStrings = chance(rt, "level.fromstrings", 1, 2)
 	if w.Mode == "update" {
 		o.IgnoreDev = chance(rt, "ignoredev", 1, 4)
 		return o
 	}
 	if plain {
+		if conc && len(w.Vulns) > 1 && chance(rt, "hasexplicit", 1, 3) {
+			// "only fix these": explicit list in C16 worlds; now and then an explicit record
+			// carries the id of a non-listed record as an OSV alias
+			for i, v := range w.Vulns {
+				if i == 0 || chance(rt, fmt.Sprintf("explicit%d", i), 1, 2) {
+					o.Explicit = append(o.Explicit, v.ID)
+				}
+			}
+			if len(o.Explicit) < len(w.Vulns) && chance(rt, "alias", 1, 2) {
+				for i := range w.Vulns {
+					listed := false
+					for _, e := range o.Explicit {
+						listed = listed || e == w.Vulns[i].ID
+					}
+					if !listed {
+						j := rapid.IntRange(0, len(o.Explicit)-1).Draw(rt, "alias.of")
+						for k := range w.Vulns {
+							if w.Vulns[k].ID == o.Explicit[j] {
+								w.Vulns[k].Aliases = []string{w.Vulns[i].ID}
+							}
+						}
+						break
+					}
+				}
+			}
+		}
 		return o
 	}
 	o.NoIntroduce = chance(rt, "nointroduce", 1, 4)
@@ -567,7 +633,7 @@ func genWorld(rt *rapid.T, kinds []string, maxUpgrades []int, plain, conc bool) 
 	case "update":
 		w.Sys, w.Mode = "maven", "update"
 	}
-	motif := draw(rt, "motif", 0, 0, 0, 0, 0, 1, 2, 3)
+	motif := draw(rt, "motif", 0, 0, 0, 0, 0, 0, 1, 2, 3, 4)
 	if conc && motif == 0 && chance(rt, "motif.conc", 1, 3) {
 		motif = draw(rt, "motif.which", 1, 1, 3)
 	}
